@@ -330,8 +330,7 @@ def oblige(eng, st: State, goal, name: str, kind="property", tags=None, detail="
                     status, model, backend, det = "discharged", None, b2, "after automatic unfolding of the spec functions in the query"
                 elif st2 == "refuted":
                     model = m2
-                else:
-                    status, model, det = "unknown", None, "refuted before, undecided after automatic unfolding of the spec functions: " + det2
+                # (undecided with the extra instances: the original refutation stands)
         except Unsupported:
             pass
     if status == "unknown" and os.environ.get("PYVC_DUMP"):
